@@ -2,6 +2,7 @@ package nc
 
 import (
 	"fmt"
+	"go/constant"
 	"go/token"
 	"go/types"
 	"strings"
@@ -250,7 +251,7 @@ func constInt(v ssa.Value) (int64, bool) {
 
 // C07 — compatibility distance.
 func C07(p *Prog, r *Run) {
-	r.Explanation = "Decided on compatibility/compatLinear/compatFast: (1) the method dispatch reaches the linear walk exactly for the `linear` option value and the fast walk otherwise; (2) every float division whose denominator is a loop counter starting at 0 is dominated by a test that the counter is positive (never NaN); (3) merge-walk exhaustion: every way out of the walk either has both cursors exhausted, or has one exhausted and adds the remainder of the other list to the distance; (4) per-step accounting over every acyclic path of one loop iteration: a step that advances one cursor adds exactly one unit (one coefficient) of disjoint-or-excess and nothing else, the step that advances both adds no unit, counts one match and accumulates |m1-m2| of the two current genes, no step leaves both cursors in place; in the linear walk a unit is 'excess' exactly when the other list is exhausted, in the fast walk unit kind and next switch state follow the 4-state table; the merge loop may be followed by tail loops that each walk the rest of one list (each judged on its own: entered only with the other list exhausted, one unit per remaining gene, left only with the list exhausted, continuing cursor and count of the walk), or the remainder may be added in one piece (len-cursor) behind the loop; (4b) start state: all counters 0, cursors on the first gene in walking direction; (4c) result: on every way from the end of the walk to a return the value returned is DisjointCoeff*D + ExcessCoeff*E (+ MutdiffCoeff*MD/M exactly when genes matched) over the final counters, nothing else added, subtracted or rescaled; (4d) a return in front of the walk happens only for an empty gene list and yields ExcessCoeff times the genes of the other list; (5) both methods read only the three coefficients, InnovationNum and MutationNum and write nothing; (6) the coefficients read are the configured ones: nothing in the library overwrites them in an Options object it was handed, a loader fills them only from its input. In the fast walk an unmatched step advances the list whose current innovation number is larger. Not decided: equality of the two methods' values for all pairs (implied by 3-4 only informally), floating-point summation order."
+	r.Explanation = "Decided on compatibility/compatLinear/compatFast: (1) the method dispatch reaches the linear walk exactly for the `linear` option value and the fast walk otherwise (a call through a function value picked beforehand is read as one invocation per function it can hold, under the outcomes of the edge that picked it; forwarding wrappers are looked through); (2) every float division whose denominator is a loop counter starting at 0 is dominated by a test that the counter is positive (never NaN); (3) merge-walk exhaustion: every way out of the walk either has both cursors exhausted, or has one exhausted and adds the remainder of the other list to the distance; (4) per-step accounting over every acyclic path of one loop iteration: a step that advances one cursor adds exactly one unit (one coefficient) of disjoint-or-excess and nothing else, the step that advances both adds no unit, counts one match and accumulates |m1-m2| of the two current genes, no step leaves both cursors in place; in the linear walk a unit is 'excess' exactly when the other list is exhausted, in the fast walk unit kind and next switch state follow the 4-state table (judged for every state the outcomes of a path leave possible; a unit kind or next state looked up in a package-level table counts only when that table is proved constant: no pointers in its type, filled with constants by the package initialiser, written or address-taken nowhere else in the program); the merge loop may be followed by tail loops that each walk the rest of one list (each judged on its own: entered only with the other list exhausted, one unit per remaining gene, left only with the list exhausted, continuing cursor and count of the walk), or the remainder may be added in one piece (len-cursor) behind the loop; (4b) start state: all counters 0, cursors on the first gene in walking direction (a cursor may be the index itself or the number of genes left; every cursor fact is read as a fact about the index the list is read at); (4c) result: on every way from the end of the walk to a return the value returned is DisjointCoeff*D + ExcessCoeff*E (+ MutdiffCoeff*MD/M exactly when genes matched) over the final counters, nothing else added, subtracted or rescaled; (4d) a return in front of the walk happens only for an empty gene list and yields ExcessCoeff times the genes of the other list; (5) both methods read only the three coefficients, InnovationNum and MutationNum and write nothing; (6) the coefficients read are the configured ones: nothing in the library overwrites them in an Options object it was handed, a loader fills them only from its input. In the fast walk an unmatched step advances the list whose current innovation number is larger. Not decided: equality of the two methods' values for all pairs (implied by 3-4 only informally), floating-point summation order."
 	comp := p.Func(PkgG, "Genome.compatibility")
 	lin := p.Func(PkgG, "Genome.compatLinear")
 	fast := p.Func(PkgG, "Genome.compatFast")
@@ -603,21 +604,38 @@ func C07(p *Prog, r *Run) {
 					}
 					if ok && kind == "fast" && sw != nil {
 						// 4-state table
-						// (read from the outcomes of every test of the switch on this path, in any spelling)
-						cur := c07StateOnPath(ip.Conds, sw)
+						// (read from the outcomes of every test of the switch on this path, in any spelling; where the
+						// outcomes leave several states possible - the unit and the next state are looked up in a constant
+						// table at the state, or several states are handled alike - the path is judged for each of them)
+						states := c07StatesOnPath(p, ip, sw)
 						nv := ip.NextValue(sw)
-						nx, isK := c07Int(nv)
-						if nv == ssa.Value(sw) && cur >= 0 {
-							nx, isK = cur, true // unchanged on this path
-						}
 						own := int64(1)
 						if a2 == 1 {
 							own = 2
 						}
-						if cur < 0 || !isK {
+						if len(states) == 0 {
 							ok = false
 							detail = "cannot determine the excess/disjoint switch state on this path"
-						} else {
+						}
+						for _, cur := range states {
+							if !ok {
+								break
+							}
+							nx, isK := c07Int(nv)
+							if !isK && nv == ssa.Value(sw) {
+								nx, isK = cur, true // unchanged on this path
+							}
+							if !isK {
+								// looked up in a constant table at the current state
+								if val, okV := c07TableEval(p, ip, nv, sw, cur); okV && val.Kind() == constant.Int {
+									nx, isK = constant.Int64Val(val)
+								}
+							}
+							if !isK {
+								ok = false
+								detail = fmt.Sprintf("cannot determine the next excess/disjoint switch state on this path (state %d)", cur)
+								break
+							}
 							wantKind, wantNext := "disjoint", int64(3)
 							switch cur {
 							case 0:
@@ -754,6 +772,9 @@ func C07(p *Prog, r *Run) {
 			Instrs(fn, func(_ *ssa.BasicBlock, _ int, in ssa.Instruction) {
 				if fa, isFA := in.(*ssa.FieldAddr); isFA {
 					k := ownerOf(fa.X.Type()).Obj().Name() + "." + fieldOf(fa.X.Type(), fa.Field).Name()
+					if !allowed[k] && p.c07InConstTable(fa, 0) {
+						return // an entry of a constant table (or of a local copy of one): a constant, not an input
+					}
 					if !allowed[k] {
 						r.Bad(fn.Name()+".reads:"+k, p.Pos(fa.Pos()), fn.Name()+" reads "+k+", which is not part of the compatibility formula")
 						ok = false
